@@ -30,7 +30,10 @@ MODES = {
     'sbs-narrow-wrap': ['--side-by-side', '--width', '41', '--wrap-max-lines', '3', '--line-numbers'],
     'raw': ['--raw'],
     'themes': ['--syntax-theme', 'GitHub', '--light', '--hunk-header-style', 'file line-number syntax'],
+    # several built-in features enabled by flags in gitconfig: their relative priority must not vary between runs
+    'gitconfig-flags': 'GITCONFIG',
 }
+GITCONFIG_TEXT = '[delta]\n    diff-so-fancy = true\n    line-numbers = true\n    navigate = true\n    hyperlinks = true\n    diff-highlight = true\n'
 
 
 def shapes():
@@ -130,7 +133,11 @@ def run_item(item):
     _, seed, shape_idx, mode, reps = item
     rng = engine.item_rng(seed)
     secs = [make_section_lines(rng, SHAPES[k], i) for i, k in enumerate(shape_idx)]
-    args = ['--paging', 'never'] + MODES[mode]
+    if MODES[mode] == 'GITCONFIG':
+        args = ['--paging', 'never', '--config', runner.write_file('c10.gitconfig', GITCONFIG_TEXT)]
+        reps = max(reps, 6)
+    else:
+        args = ['--paging', 'never'] + MODES[mode]
     whole_in = ('\n'.join(l for s in secs for l in s) + '\n').encode()
     outs = []
     counters = {'sections': len(secs), 'determinism_reruns': 0}
